@@ -95,8 +95,9 @@ def to_py(item):
 
 
 class Env:
-    def __init__(self, faults=(), poison=None, active=True):
+    def __init__(self, faults=(), poison=None, active=True, alter=None):
         self.active = active
+        self.alter = alter  # {"cone": [n, ...], "factor": f}: the caller's terms outside the cone are scaled by f in this world
         self.plan = {}
         for f in faults:
             self.plan.setdefault(f["op"], []).append(f)
@@ -281,7 +282,7 @@ def scipy_shim():
 class Inputs:
     """Caller-owned input objects of a world, generated from world['vseed']."""
 
-    def __init__(self, w):
+    def __init__(self, w, alter=None):
         from pymablock.series import zero
 
         self.w = w
@@ -439,6 +440,10 @@ class Inputs:
                     if w["herm"]:
                         keep = np.triu(keep) | np.triu(keep, 1).T
                     A = np.where(keep, A, 0)
+                if w.get("term_scale"):
+                    A = A * w["term_scale"][list(map(tuple, w["terms"])).index(o)]  # terms of very different magnitude
+                if alter is not None and not any(leq(o, n) for n in alter["cone"]):
+                    A = A * alter["factor"]  # altered twin (C12): a term outside the protected cone is something else entirely
                 self.full[o] = A
             if w["domain"] == "sparse":
                 from scipy import sparse
@@ -606,7 +611,7 @@ class Sim:
 
         self.w = world
         self.env = env
-        self.inp = Inputs(world)
+        self.inp = Inputs(world, alter=env.alter)
         W.hook = (lambda: env.tick("Mw", None)) if world["domain"] == "wrapped" else None
         self._solvers = {}
         self._fd_dicts = {c: dict(mk) for c, mk in self.inp.masks.items()}
@@ -1074,7 +1079,7 @@ class GraphProp:
                 used.add((op[1], op[2]))
         table = fresh_table(world, used)
         cap = world_cap(world)
-        env = Env(faults=case.get("faults", ()), poison=case.get("poison"))
+        env = Env(faults=case.get("faults", ()), poison=case.get("poison"), alter=case.get("alter"))
         sim = Sim(world, env)
         nb, npert = len(world["sizes"]), world["npert"]
         box = world_box(world)
@@ -1248,6 +1253,23 @@ class GraphProp:
                 if env.poison is not None and not all(any(leq(o, n) for n in env.poison) for o in orders):
                     continue
                 h0 = len(env.h_calls)
+                if env.alter is not None and not all(any(leq(o, n) for n in env.alter["cone"]) for o in orders):
+                    # altered twin: this request legitimately evaluates altered terms; its value is not judged, the
+                    # requests inside the protected cone that follow are (against the oracle of the unaltered world)
+                    try:
+                        target[item]
+                    except batch.RunTimeout:
+                        raise
+                    except Exception:  # noqa: BLE001
+                        bump("altered_request_raised")
+                    bump("altered_out_of_cone_request")
+                    env.events.append(("altered-req", opi))
+                    if self.check_cone:
+                        for key, order in env.h_calls[h0:]:
+                            if not any(leq(order, n) for n in orders):
+                                fail("cone", f"op#{opi} {op}: requesting orders {orders} evaluated Hamiltonian term {key} of order {order}")
+                                break
+                    continue
                 status = self._step(sim, env, ("req", target, item, sel, may, cell_keys), opi, table, None, fail, bump, handed, stats)
                 if status == "ok":
                     value_ops += 1
@@ -1308,7 +1330,7 @@ class GraphProp:
                     states.append(format(hash(tuple(sorted(sig))) & 0xFFFFFFFFFFFF, "x"))
 
         # ---- after the schedule
-        if violation is None and env.poison is None:
+        if violation is None and env.poison is None and env.alter is None:
             env.faults_enabled = False
             env.sticky.clear()
             self._final(sim, env, world, table, case, fail, bump, handed, stats)
